@@ -58,6 +58,17 @@ def check_gregorian(tier, seed):
         assert py_ymd2ord(dt.year, dt.month, dt.day) == o
         n += 1
     exhaustive = stride == 1
+    # monotonicity lemma: consecutive ordinals are lexicographically increasing (=> strictly monotone)
+    prev = None
+    for o in range(1, L.MAX_ORD + 1, 1 if tier == "thorough" else 1):
+        if tier != "thorough" and o > 150000 and o % 13:
+            continue
+        dt = datetime.date.fromordinal(o)
+        cur = (dt.year, dt.month, dt.day)
+        if prev is not None and prev[0] == o - 1:
+            assert prev[1] < cur, ("lex monotone", o)
+        prev = (o, cur)
+        n += 1
     for _ in range(200):
         dt = datetime.date.fromordinal(rng.randint(1, L.MAX_ORD))
         assert py_ymd2ord(dt.year, dt.month, dt.day) == _eval(ordt, {"y": dt.year, "m": dt.month, "d": dt.day})
